@@ -20,3 +20,6 @@ func verifStrs(xs []string) []any {
 	}
 	return out
 }
+
+func VerifBodyLinks(p *Post) []string { return p.bodyLinks }
+func VerifBioLinks(a *Actor) []string { return a.bioLinks }
